@@ -44,6 +44,9 @@ def evidence(c):
         executions_with_two_or_more_failed_requests=st.get('pairs', 0),
         outcomes=dict(failure_reported_and_dest_cleared=st.get('out_fail_clean', 0), success_identical_to_fault_free=st.get('out_success_same', 0)),
         leak_checks=st.get('leak_checks', 0) + st.get('faulted', 0),
+        heap_guard='every block the library allocates carries a 64-byte red zone and is poisoned and quarantined on release until the call returns; checked at free / realloc / return in every execution',
+        calls_retaining_memory_until_thread_exit=st.get('retained_ops', 0),
+        fault_free_executions_with_heap_misuse_not_judged_here=st.get('dry_heap_misuse', 0),
         requests_per_call_histogram=st.get('nalloc_hist', {}),
         fault_kinds_fired=dict(alloc_fail=st.get('hit', 0), stream_write_error_or_short=st.get('wr_faults', 0)),
         allocation_sites_static=static,
@@ -70,6 +73,7 @@ def evidence(c):
         property_id='C20', tier=c['tier'], seed=c['seed'], level=c['level'], coverage=coverage,
         assumptions=['only allocation requests made by the library itself are failed (C20: "any dynamic allocation the library performs"); glibc-internal allocations stay real',
                      'the instrumented clang -O1 build has the same allocation sites and error paths as the shipped build (same sources)',
+                     'a block is leaked if nobody has released it when the call has returned and the calling thread has ended and run its exit handlers (memory the library keeps per thread and releases at thread exit is not a leak)',
                      '"dest cleared" is judged as: first element zero and no element differing from both zero and its pre-call value',
                      'whether the constraint handler is invoked on allocation failure is logged, not demanded (the property does not state it)'],
         wall_s=round(c['wall'], 2), violations=len(c['reported']))
